@@ -56,8 +56,10 @@ theorem DecS_of_ok {buf : List Nat} {ft op sz : Nat} {d : C03S.DInst}
 
 theorem dec_t1 (buf : List Nat) (hlen : buf.length = 8) :
     C04.decode false buf = C04.decodeCore C04.lookUp false (C04.le32 buf 0) (some (C04.le32 buf 4)) := by
+  have hl : C04.lookUpArch false = C04.lookUp := by
+    funext ft op; simp [C04.lookUpArch]
   unfold C04.decode C04.decodeWith
-  rw [if_neg (by omega), if_pos (by omega)]
+  rw [if_neg (by omega), if_pos (by omega), hl]
 
 theorem dec_t2 (w0 : Nat) (w1 : Option Nat) (f : Gen.Format) (row : Gen.Row)
     (hf : C04.matchFormat w0 = some f)
